@@ -165,3 +165,41 @@ func KeywordTexts() []string {
 	}
 	return out
 }
+
+// PairPool returns the texts of the pair space: every text of First is parsed, then every text of
+// Second in the same process, whose reading must be what it is on its own. First holds the short
+// texts of the piece alphabets and texts after which a reader is most likely to keep something:
+// aborted in the middle of a line at some column (unterminated quotes and comments, the cut-off
+// after too many errors), ended inside blocks, inside a multi-line string, after tabs and
+// multi-byte characters. Second holds the texts whose reading depends on columns, lines and nesting:
+// the argument-piece texts up to three (four) pieces, multi-line strings opening on the first line at
+// several columns with continuation lines indented around that column.
+func PairPool(tier string) (first, second []string) {
+	add := func(dst *[]string, sp Space, max int) {
+		sp.Max, sp.ShardDepth = max, max+1
+		Enumerate(sp, -1, func(t string, _ int) bool { *dst = append(*dst, t); return true })
+	}
+	n1, n2 := 2, 3
+	if tier == "thorough" {
+		n1, n2 = 3, 4
+	}
+	add(&first, Space{"L2", alphaL2, "", "", 0, 0}, n1)
+	add(&first, Space{"L2s-k", alphaL2s, "k ", ";", 0, 0}, 2)
+	for _, pad := range []string{"", " ", "        ", "\t", "\t\t \t", "ééé ", "k { l \"x\n  y\";\n      "} {
+		for _, tail := range []string{"k 'never closed;\n", "k 'never closed", "k \"never closed;\n", "k \"never\n   closed", "k /* never closed;\n", "k /* never closed", "k \"a\\", "k 'a' +", "k a", "k a {", "k a { l b; ", "k \"a\n        b\" \"c\" {", "} ", "k \"a\\q\" 'b", strings.Repeat("\"a\" ", 9), strings.Repeat("} ", 9), strings.Repeat("k \"\\q\";", 9) + "k 'x"} {
+			first = append(first, pad+tail)
+		}
+	}
+	add(&second, Space{"L2s-k", alphaL2s, "k ", ";", 0, 0}, n2)
+	add(&second, Space{"L2s-tab", alphaL2s, "\tk ", ";", 0, 0}, 2)
+	add(&second, Space{"L2s-mbc", alphaL2s, "k /*é*/", ";", 0, 0}, 2)
+	add(&second, Space{"L2", alphaL2, "", "", 0, 0}, 2)
+	for _, q := range []int{0, 1, 3, 8, 17} {
+		pad := strings.Repeat(" ", q)
+		for _, i := range []int{0, 1, q + 2, q + 3, q + 4, q + 9, 2*q + 8} {
+			ind := strings.Repeat(" ", i)
+			second = append(second, pad+"k \"first\n"+ind+"second\n"+ind+"  third\";", pad+"k 'a' + \"first\n"+ind+"second\";", pad+"k \"first\n\t"+ind+"second\";")
+		}
+	}
+	return
+}
